@@ -22,6 +22,9 @@ ALSO TRANSLATED (second part of the file): duration.py Duration.in_words, interv
   components, Locale.get/translation's split-and-walk stays the hand primitive loc_translation), datetime.py DateTime.diff_for_humans and date.py
   Date.diff_for_humans (self.now()/self.today() -> the explicit input clock_; self.diff(other) -> h_diff = Model/DiffHumans.v diff_comps),
   locales/locale.py Locale.plural / ordinal / ordinalize.
+  THIRD PART: locales/locale.py Locale.get / Locale.translation: self._key_cache threaded as kc_ (transparency proved), key.split(".") -> psplit 46,
+  d[k] -> node_getitem, the for loop -> the left fold of its translated body, `try ... except KeyError: result = default` -> a match on the exception
+  kind (class GetTr, the idea of g84_parse_chain.py's TryTr, for a body AND a handler that fall through).
 HAND MODEL: coq/Model/HumanizeObj.v.
 """
 import ast
@@ -68,24 +71,24 @@ class HRw(ast.NodeTransformer):
         return node
 
 
-def _thread_cache(fn):
-    """cache_ becomes the first parameter; cache_[k] = v -> cache_ = _cache_set(cache_, k, v); return e -> return (e, cache_)"""
+def _thread_cache(fn, var="cache_", setter="_cache_set"):
+    """cache_ (var) becomes the first parameter; cache_[k] = v -> cache_ = _cache_set(cache_, k, v); return e -> return (e, cache_)"""
     class T(ast.NodeTransformer):
         def visit_Assign(self, node):
             self.generic_visit(node)
             t = node.targets[0]
-            if len(node.targets) == 1 and isinstance(t, ast.Subscript) and ast.unparse(t.value) == "cache_":
-                return ast.copy_location(ast.Assign(targets=[ast.Name(id="cache_", ctx=ast.Store())],
-                                                    value=ast.Call(func=_name("_cache_set"), args=[_name("cache_"), t.slice, node.value], keywords=[])), node)
+            if len(node.targets) == 1 and isinstance(t, ast.Subscript) and ast.unparse(t.value) == var:
+                return ast.copy_location(ast.Assign(targets=[ast.Name(id=var, ctx=ast.Store())],
+                                                    value=ast.Call(func=_name(setter), args=[_name(var), t.slice, node.value], keywords=[])), node)
             return node
 
         def visit_Return(self, node):
             self.generic_visit(node)
             if node.value is None:
                 raise P.Unsupported("bare return in a cache-threading function")
-            return ast.copy_location(ast.Return(value=ast.Tuple(elts=[node.value, _name("cache_")], ctx=ast.Load())), node)
+            return ast.copy_location(ast.Return(value=ast.Tuple(elts=[node.value, _name(var)], ctx=ast.Load())), node)
     fn = T().visit(fn)
-    fn.args.args.insert(0, ast.arg(arg="cache_"))
+    fn.args.args.insert(0, ast.arg(arg=var))
     ast.fix_missing_locations(fn)
     return fn
 
@@ -224,6 +227,7 @@ def gen(_shared):
                "  | Some b => match diff_comps rs a b with Ok ci => Ok (mkgdiff (fst ci) (snd ci)) | Raise e => Raise e end\n  end.\n")
     _gen_dfh(out, h, ast.parse(open(src("datetime.py")).read()), "DateTime.diff_for_humans", "DateTime_diff_for_humans", "self.now", "src/pendulum/datetime.py")
     _gen_dfh(out, h, ast.parse(open(src("date.py")).read()), "Date.diff_for_humans", "Date_diff_for_humans", "self.today", "src/pendulum/date.py")
+    _gen_locale_get(out, loc_tree)
     return "\n".join(out) + "\n"
 
 
@@ -489,6 +493,167 @@ def _gen_locale_methods(out, loc_tree):
                             "   f'{number}{ordinal}' = str(number) + str(ordinal))", force_result=True)
     if rett != S:
         raise P.Unsupported("Locale.ordinalize: unexpected type")
+    out.append(text)
+
+
+# ---------------------------------------------------------------------------------------------------------------- Locale.get / Locale.translation
+KC = "gkcache"
+GET_TRY = ("try:\n    result = self._data[parts[0]]\n    for part in parts[1:]:\n        result = result[part]\nexcept KeyError:\n    result = default")
+
+
+class GetTr(P.FunTr):
+    """py2gallina.FunTr + `try: <body that falls through> except KeyError: <handler that falls through>; <rest that returns>` (the idea of the
+    TryTr of g84_parse_chain.py: the result monad carries the exception kind):
+        match (<body>; Ok (the variable it assigns)) with
+        | Ok v => <rest> | Raise e => if e is KeyError then (<handler>; <rest>) else Raise e end
+    The handler is translated in the environment BEFORE the try (it may not read what the body assigned).  Anything else fails closed."""
+
+    def block(self, stmts, k):
+        if stmts and isinstance(stmts[0], ast.Try):
+            s, rest = stmts[0], stmts[1:]
+            if self.monad != "result" or self.in_loop:
+                self.fail(s, "try in a function that is not in the result monad / inside a loop")
+            if s.orelse or s.finalbody or len(s.handlers) != 1:
+                self.fail(s, "try: else / finally / not exactly one handler")
+            h = s.handlers[0]
+            if h.name is not None or not isinstance(h.type, ast.Name) or h.type.id != "KeyError":
+                self.fail(s, "except: not `except KeyError:`")
+            if any(isinstance(n, (ast.Return, ast.Raise, ast.Try)) for x in s.body + h.body for n in ast.walk(x)):
+                self.fail(s, "try: return / raise / nested try inside")
+            if not self.terminates(rest):
+                self.fail(s, "try: the statements after it do not end in return / raise")
+            names = self.assigned(s.body)
+            if len(names) != 1:
+                self.fail(s, "try: the body does not assign exactly one variable")
+            env0 = dict(self.env)
+            got = {}
+
+            def k_body():
+                got[names[0]] = self.env[names[0]]
+                return f"Ok {self.v(names[0])}"
+            body = self.block(s.body, k_body)
+            self.env = dict(env0)
+            hcode = self.block(h.body + rest, k)
+            self.env = dict(env0)
+            self.env[names[0]] = got[names[0]]
+            cont = self.block(rest, k)
+            return (f"match (\n  {body}) with\n  | Ok {self.v(names[0])} =>\n  {cont}\n  | Raise exn_ =>\n"
+                    f"  if (match exn_ with E_KeyError => true | _ => false end) then (\n  {hcode})\n  else Raise exn_\n  end")
+        return super().block(stmts, k)
+
+
+def _tr_get(ctx, fn, coq, argtypes, self_type, what, **kw):
+    tr = GetTr(ctx, fn, coq, argtypes=argtypes, self_type=self_type, **kw)
+    text, argt, rett, monad = tr.translate()
+    shown = "\n".join(ast.unparse(s) for s in fn.body).replace("(*", "( *").replace("*)", "* )").replace("\n", "\n     ")
+    return f"(* {what}\n   What is translated (after the recognised rewrites):\n     {shown} *)\n" + text, rett, monad
+
+
+class GRw(ast.NodeTransformer):
+    """recognised shapes of Locale.get / Locale.translation"""
+
+    def visit_Attribute(self, node):
+        if ast.unparse(node) == "self._key_cache":
+            return ast.copy_location(_name("kc_"), node)
+        self.generic_visit(node)
+        return node
+
+    def visit_Call(self, node):
+        self.generic_visit(node)
+        if ast.unparse(node) == "key.split('.')":
+            return ast.copy_location(_call("_split_dot", _name("key")), node)
+        return node
+
+    def visit_Subscript(self, node):
+        self.generic_visit(node)
+        u, v = ast.unparse(node), ast.unparse(node.value)
+        if isinstance(node.ctx, ast.Load):
+            if u == "parts[0]":
+                return ast.copy_location(_call("_head", _name("parts")), node)
+            if u == "parts[1:]":
+                return ast.copy_location(_call("_tail", _name("parts")), node)
+            if v in ("self._data", "result") and not isinstance(node.slice, ast.Slice):
+                return ast.copy_location(_call("_getitem", node.value, node.slice), node)
+        return node
+
+    def visit_JoinedStr(self, node):
+        if ast.unparse(node) == "f'translations.{key}'":
+            return ast.copy_location(_call("_cat", _name("_s_translations_dot"), _name("key")), node)
+        raise P.Unsupported(f"unrecognised f-string: {ast.unparse(node)}")
+
+
+def _gen_locale_get(out, loc_tree):
+    where = "src/pendulum/locales/locale.py"
+    cls = next(n for n in loc_tree.body if isinstance(n, ast.ClassDef) and n.name == "Locale")
+    init = P.find_function(loc_tree, "Locale.__init__")
+    if "self._key_cache: dict[str, str] = {}" not in [ast.unparse(x) for x in init.body]:
+        raise P.Unsupported("locale.py: Locale.__init__ does not start self._key_cache as an empty dict")
+    uses = {}
+    for f in cls.body:
+        if isinstance(f, ast.FunctionDef):
+            n = sum(isinstance(x, ast.Attribute) and x.attr == "_key_cache" for x in ast.walk(f))
+            if n:
+                uses[f.name] = n
+    if set(uses) != {"__init__", "get"} or uses["__init__"] != 1:
+        raise P.Unsupported(f"locale.py: _key_cache is used outside __init__ / get: {uses}")
+    g = P.Ctx()
+    g.int_boolop = g.obj_fragment = g.conservative_exit = True
+    g.attrs["_data"] = ("l_data", "node")
+    g.funcs["_getitem"] = ("node_getitem", ["node", S], "node", "result")
+    g.funcs["_head"] = ("lp_head", ["lpstr"], S, None)
+    g.funcs["_tail"] = ("lp_tail", ["lpstr"], "lpstr", None)
+    g.funcs["_split_dot"] = ("psplit 46", [S], "lpstr", None)
+    g.kwfuncs["_kc_set"] = ("kc_set", ["c", "k", "v"], {}, [KC, S, NODE], KC, None)      # a node stored where Any | None is expected: coerced (Some)
+    g.funcs["_cat"] = ("pcat", [S, S], S, None)
+    g.consts["_s_translations_dot"] = ("s_translations_dot", S)
+    g.cmpops[("In", S, KC)] = "kc_has {r} {l}"
+    g.opaque["kc_[key]"] = ("kc_get {kc_} {key}", NODE)
+
+    fn = copy.deepcopy(P.find_function(loc_tree, "Locale.get"))
+    if [a.arg for a in fn.args.args] != ["self", "key", "default"] or [ast.unparse(d) for d in fn.args.defaults] != ["None"]:
+        raise P.Unsupported("Locale.get: unexpected signature")
+    body = [s for s in fn.body if not (isinstance(s, ast.Expr) and isinstance(s.value, ast.Constant))]
+    idx = next((i for i, s in enumerate(body) if isinstance(s, ast.Try)), None)
+    if idx is None or sum(isinstance(n, (ast.Try, ast.For)) for n in ast.walk(fn)) != 2:
+        raise P.Unsupported("Locale.get: not exactly one try with one loop")
+    t = body[idx]
+    loop = t.body[-1] if t.body else None
+    if not (isinstance(loop, ast.For) and ast.unparse(loop.target) == "part" and ast.unparse(loop.iter) == "parts[1:]" and not loop.orelse
+            and len(loop.body) == 1 and isinstance(loop.body[0], ast.Assign) and ast.unparse(loop.body[0].targets[0]) == "result"
+            and not any(isinstance(n, ast.Name) and n.id == "part" for s in body[idx + 1:] for n in ast.walk(s))):
+        raise P.Unsupported("Locale.get: the loop does not have the recognised shape (`for part in parts[1:]: result = <e>` at the end of the try body)")
+    step = ast.parse("def step(result, part):\n    pass").body[0]
+    step.body = [GRw().visit(copy.deepcopy(loop.body[0])), ast.parse("return result").body[0]]
+    ast.fix_missing_locations(step)
+    text, rett, monad = _tr(g, step, "glue_Locale_get_step", {"result": "node", "part": S}, None,
+                            f"translated from {where} :: Locale.get: the BODY of `for part in parts[1:]:`, as a function of the variables it reads;\n"
+                            "   returns the variable it updates (result)", force_result=True)
+    if rett != "node":
+        raise P.Unsupported(f"Locale.get: unexpected step type {rett}")
+    out.append(text)
+    out.append("(* BY HAND: `for part in <list>: BODY` = the left fold of BODY over the list *)\n"
+               "Fixpoint glue_Locale_get_loop (r : node) (l : lpstr) : result node :=\n"
+               "  match l with\n  | [] => Ok r\n  | p :: t => match glue_Locale_get_step r p with Raise e => Raise e | Ok r' => glue_Locale_get_loop r' t end\n  end.\n")
+    g.funcs["_loop"] = ("glue_Locale_get_loop", ["node", "lpstr"], "node", "result")
+    t.body[-1] = ast.parse("result = _loop(result, parts[1:])").body[0]
+    fn.body = [GRw().visit(s) for s in body]
+    ast.fix_missing_locations(fn)
+    fn = _thread_cache(fn, "kc_", "_kc_set")
+    text, rett, monad = _tr_get(g, fn, "glue_Locale_get", {"kc_": KC, "key": S, "default": NODE}, "locale",
+                                f"translated from {where} :: Locale.get (self._key_cache threaded as kc_; the loop is glue_Locale_get_loop)", force_result=True)
+    if rett != (NODE, KC):
+        raise P.Unsupported(f"Locale.get: unexpected type {rett}")
+    out.append(text)
+
+    fn = copy.deepcopy(P.find_function(loc_tree, "Locale.translation"))
+    if [ast.unparse(x) for x in fn.body] != ["return self.get(f'translations.{key}')"]:
+        raise P.Unsupported("Locale.translation changed")
+    fn = ast.parse("def translation(kc_, self, key):\n    return _get(kc_, self, X)").body[0]
+    fn.body[0].value.args[2] = GRw().visit(ast.parse("f'translations.{key}'").body[0].value)
+    ast.fix_missing_locations(fn)
+    g.kwfuncs["_get"] = ("glue_Locale_get", ["kc_", "self", "key", "default"], {"default": "None"}, [KC, "locale", S, NODE], (NODE, KC), "result")   # get's own default (checked above)
+    text, rett, monad = _tr(g, fn, "glue_Locale_translation", {"kc_": KC, "key": S}, "locale",
+                            f"translated from {where} :: Locale.translation: `return self.get(f'translations.{{key}}')` (kc_ threaded; default = None)", force_result=True)
     out.append(text)
 
 
